@@ -99,6 +99,7 @@ def parseEvA (s : String) : Option ObsA :=
   | ["L", s, K] => do pure ⟨.leave (← s.toNat?) (← parseNats K), none, some []⟩
   | ["F", s, r] => do pure ⟨.finish (← s.toNat?) (← parseRes r), none, none⟩
   | ["T", d] => do pure ⟨.tick (← d.toNat?), none, none⟩
+  | ["XC"] => some ⟨.extCancel, none, none⟩
   | _ => none
 
 /-- why `stepA` refuses an event (diagnostic only) -/
@@ -115,6 +116,7 @@ def whyRejectA (c : Cfg) (st : StA) : EvA → String
     let w := (List.range c.n).filter fun s => c.isSched s && st.pc s == .loop && (!(doneSet c st s).isEmpty || (st.rx s).isSome)
     s!"tick: grantable={g} waitable={w}"
   | .runBegin => "runBegin"
+  | .extCancel => s!"extCancel: ph0={repr (st.ph 0)} creq0={st.creq 0}"
 
 /-- the guard of `tick` that failed, if the step can be forced (`eager` / `urgent`) -/
 def tickWhyA (c : Cfg) (st : StA) : String :=
@@ -182,7 +184,7 @@ open AJ.Full
 structure ObsB where
   ev  : EvB
   /-- observed fields: D (done set), S (started), K (cancel() calls — on `R_…`, `OF_…`, `CA_…`, `TF_…`: every event
-      by which a run may leave its main loop), H (handler tasks created),
+      by which a run may leave its main loop; on `XC`: the top-level task `0`), H (handler tasks created),
       HC (handler tasks cancelled), R (result of a run that ends: job id + token), V (value of co_shutdown) -/
   obs : List (String × String)
 
@@ -209,12 +211,15 @@ def parseEvB (s : String) : Option ObsB := do
     | ["ST", s] => do pure (.sdTimeoutFire (← s.toNat?))
     | ["SY", s, p] => do pure (.sdTidyReturn (← s.toNat?) (← p.toNat?))
     | ["T", d] => do pure (.tick (← d.toNat?))
+    | ["XC"] => some EvB.extCancel
     | _ => none
   pure ⟨ev, obs⟩
 
 def evSched : EvB → Nat
   | .cancelArrive s | .waitReturn s | .react s | .orchFail s | .timeoutFire s | .tidyReturn s _ | .hStep s
   | .hCancelArrive s | .sdWaitReturn s _ | .sdTimeoutFire s | .sdTidyReturn s _ => s
+  -- the cancellation from outside concerns the top-level scheduler
+  | .extCancel => 0
   | _ => 0
 
 def resToken : Ph → String
@@ -244,6 +249,7 @@ def tickWhyB (c : Cfg) (st : StB) : String :=
 def evTag : EvB → String
   | .cancelArrive _ => "CA" | .react _ => "R" | .orchFail _ => "OF" | .timeoutFire _ => "TF" | .tidyReturn _ _ => "TR" | .hStep _ => "HS"
   | .hCancelArrive _ => "HX" | .sdWaitReturn _ _ => "SW" | .sdTimeoutFire _ => "ST" | .sdTidyReturn _ _ => "SY"
+  | .extCancel => "XC"
   | _ => "-"
 
 def exTag : Exit → String
@@ -373,6 +379,8 @@ def replayB (c : Cfg) (evs : List ObsB) (diag : List (Nat × Bool × Bool)) : St
       | .sdWaitReturn s _ | .sdTimeoutFire s | .sdTidyReturn s _ =>
         if st.pcB s != st'.pcB s || st.bc s != st'.bc s then
           cov := cov.push s!"{evTag o.ev}:{pcTag (st.pcB s)}{bcTag (st.bc s)}>{pcTag (st'.pcB s)}{bcTag (st'.bc s)}"
+      -- the cancellation from outside changes no phase: the label says in which phase the top-level run was
+      | .extCancel => cov := cov.push s!"{evTag o.ev}:{pcTag (st.pcB 0)}{bcTag (st.bc 0)}"
       | _ => pure ()
       st := st2
     i := i + 1
